@@ -130,6 +130,7 @@ func genC04(tier string, r *rng, emit func(string)) {
 		}
 		emit(fmt.Sprintf("prog %s new:rm:2,3:1;copyto:0:0", dt))
 	}
+	recycleMotifs(emit)
 	dts := []string{"f64", "i", "u8", "str", "f32", "c64", "b", "i8"}
 	for i := 0; i < n; i++ {
 		sh := randShape(r, 1, 4, 4)
